@@ -280,6 +280,8 @@ def run(ck: Checker) -> None:
     ck.guard("R-GRAM-ARITY", lambda: r_gram_arity(ck, LXP))
     ck.guard("R-EXC-ESCAPE", lambda: r_exc_escape(ck, [(LXP, "ASTXpath.__init__", {"ASTXpathDefinitionError"}, {"xpath"})], min_guarded=1))
     ck.guard("R-XP-SHARED", lambda: r_legacy_step(ck))
+    from .c17 import r_handler_attrs
+    ck.guard("R-EXC-ESCAPE", lambda: r_handler_attrs(ck, [(LXP, "ASTXpath.__init__", {"ASTXpathDefinitionError"}, {"xpath"})]))
     from .c07 import r_xp_elements
     ck.guard("R-XP-ELEMENTS", lambda: r_xp_elements(ck, LXP, min_count=1))
     from .c17 import r_reusable
